@@ -241,6 +241,140 @@ def body_graph_reactor(env):
         shutil.rmtree(d, ignore_errors=True)
 
 
+def _snapshot(obj, depth=0, seen=None):
+    """Value snapshot of everything numeric reachable from obj (attributes, dictionaries, lists, arrays; Material state)."""
+    seen = set() if seen is None else seen
+    if depth > 5 or id(obj) in seen:
+        return None
+    if isinstance(obj, np.ndarray):
+        return np.array(obj, dtype=float) if obj.dtype != object else None
+    if isinstance(obj, (bool, int, float, np.floating, np.integer)):
+        return float(obj)
+    if isinstance(obj, dict):
+        seen.add(id(obj))
+        return {str(k): _snapshot(v, depth + 1, seen) for k, v in obj.items()}
+    if isinstance(obj, (list, tuple)):
+        seen.add(id(obj))
+        return [_snapshot(v, depth + 1, seen) for v in obj[:400]]
+    if hasattr(obj, '__dict__') and type(obj).__module__.startswith('dassh') and not callable(obj):
+        seen.add(id(obj))
+        return {k: _snapshot(v, depth + 1, seen) for k, v in vars(obj).items() if k not in ('logger', 'log')}
+    return None
+
+
+def _diff(a, b, path, out):
+    if len(out) > 5 or a is None or b is None:
+        return
+    if isinstance(a, dict) and isinstance(b, dict):
+        for k in a:
+            if k in b:
+                _diff(a[k], b[k], path + '.' + k, out)
+    elif isinstance(a, list) and isinstance(b, list):
+        for i, (x, y) in enumerate(zip(a, b)):
+            _diff(x, y, '%s[%d]' % (path, i), out)
+    elif isinstance(a, np.ndarray) and isinstance(b, np.ndarray):
+        if a.shape != b.shape or not np.array_equal(a, b, equal_nan=True):
+            out.append(path)
+    elif isinstance(a, float) and isinstance(b, float):
+        if a != b and not (a != a and b != b):
+            out.append(path)
+
+
+def body_advance(env):
+    """The statement itself on a real Reactor (enumeration, no symbolic dimension): advancing one assembly by one step through
+    the real Reactor._calculate_asm_temperatures leaves every number reachable from every other assembly (fields, pin
+    temperatures, peaks, balances, material state, correlated parameters) bit-for-bit unchanged."""
+    d = tempfile.mkdtemp(prefix='dassh-verif-c06.')
+    try:
+        sub = ()
+        mats = ()
+        if env.params.get('pin'):
+            mats = ['[[cladmat]]', '    thermal_conductivity = 21.5', '[[gapmat]]', '    thermal_conductivity = 0.35']
+            sub = ['[[[FuelModel]]]', '    gap_thickness = 0.00004', '    clad_material = cladmat', '    gap_material = gapmat',
+                   '    r_frac = 0.0, 0.5', '    pu_frac = 0.2, 0.1', '    zr_frac = 0.1, 0.1', '    porosity = 0.25, 0.1']
+        asms = {'fuel': geninp.default_asm(2, axial=[('lower', 0.0, 0.01, 0.3)] if env.params.get('unrodded') else None, lowfid=None,
+                                           subsections=sub),
+                'other': geninp.default_asm(3, P=0.0052, D=0.0042, Dw=0.0008, subsections=sub)}
+        inp = geninp.write_case(d, asms, [('fuel', 1, 1, 'FLOWRATE=0.5'), ('other', 2, 1, 'FLOWRATE=0.45'), ('fuel', 2, 2, 'FLOWRATE=0.4'),
+                                          ('fuel', 2, 4, 'DELTA_TEMP=120.0')],
+                                gap_model=env.params.get('gap_model', 'flow'), coolant='sodium', materials_extra=mats, core_len=0.05)
+        r = dassh.Reactor(dassh.DASSH_Input(inp), path=os.path.join(d, 'out'), write_output=False)
+        r._data_setup()
+        r._data_open()
+        r.axial_step0()
+        nstep = 0
+        for step in (1, 2):
+            z, dz = r.z[step], r.dz[step - 1]
+            for i, asm in enumerate(r.assemblies):
+                before = [_snapshot(a) for a in r.assemblies]
+                core_before = _snapshot(r.core)
+                r._calculate_asm_temperatures(asm, i, z, dz, False)
+                nstep += 1
+                own = []
+                _diff(before[i], _snapshot(asm), 'assembly[%d]' % i, own)
+                env.holds('step %d: advancing assembly %d changes that assembly' % (step, i), bool(own))
+                for j, other in enumerate(r.assemblies):
+                    if j == i:
+                        continue
+                    ch = []
+                    _diff(before[j], _snapshot(other), 'assembly[%d]' % j, ch)
+                    env.holds('step %d: advancing assembly %d leaves assembly %d unchanged%s' % (step, i, j, '' if not ch else ': changed ' + ', '.join(ch[:3])),
+                              not ch, key='advancing_one_assembly_changed_another')
+                ch = []
+                _diff(core_before, _snapshot(r.core), 'core', ch)
+                env.holds('step %d: advancing assembly %d leaves the gap state unchanged%s' % (step, i, '' if not ch else ': changed ' + ', '.join(ch[:3])),
+                          not ch, key='advancing_one_assembly_changed_another')
+            if r.core.model is not None:
+                t_duct = np.array([dassh.mesh_functions.map_across_gap(a.duct_outer_surf_temp, a.active_region._map['duct2gap']) for a in r.assemblies])
+                r.core.calculate_gap_temperatures(dz, t_duct)
+        try:
+            r._data_close()
+        except (AttributeError, KeyError):
+            pass
+    finally:
+        shutil.rmtree(d, ignore_errors=True)
+
+
+def _asm_state(asm):
+    out = {'flow_rate': float(asm.flow_rate)}
+    for ri, reg in enumerate(asm.region):
+        for nm in STATEFUL + ['flow_rate', 'int_flow_rate', 'byp_flow_rate', 'sc_mfr', '_mratio']:
+            if hasattr(reg, nm):
+                out['region[%d].%s' % (ri, nm)] = _snapshot(getattr(reg, nm))
+    return out
+
+
+def body_twin(env):
+    """Stand-alone twin (enumeration, no symbolic dimension): every assembly of a real multi-assembly Reactor starts the sweep
+    in the state, and makes the first steps to the fields, of the same assembly (same type, power, boundary condition) set up
+    alone in its own Reactor -- the set-up of the other positions (their boundary-condition estimates, clones, mesh
+    requirements) leaves nothing behind in it.  Temperature-dependent coolant; adiabatic outer wall."""
+    bcs = env.params['bcs']
+    built = []
+    for assign in [[('fuel', *pos, bc) for pos, bc in zip(((1, 1), (2, 1), (2, 2), (2, 3), (2, 4)), bcs)]] + [[('fuel', 1, 1, bc)] for bc in bcs]:
+        d = tempfile.mkdtemp(prefix='dassh-verif-c06.')
+        try:
+            asms = {'fuel': geninp.default_asm(2, axial=[('lower', 0.0, 0.01, 0.3)] if env.params.get('unrodded') else None, lowfid=None)}
+            inp = geninp.write_case(d, asms, assign, gap_model='none', coolant='sodium', core_len=0.05, pin_power=lambda k: 1500.0,
+                                    setup_lines=('axial_mesh_size = 0.001',))
+            built.append(dassh.Reactor(dassh.DASSH_Input(inp), path=os.path.join(d, 'out'), write_output=False))
+        finally:
+            shutil.rmtree(d, ignore_errors=True)
+    X, twins = built[0], built[1:]
+    env.holds('one stand-alone twin per assembly', len(twins) == len(X.assemblies))
+    for k, asm in enumerate(X.assemblies):
+        tw = twins[k].assemblies[0]
+        for phase in ('at the start of the sweep', 'after one step', 'after two steps'):
+            if phase != 'at the start of the sweep':
+                for a_ in (asm, tw):
+                    n = a_.duct_outer_surf_temp.shape[0]
+                    a_.calculate(0.001, np.ones(n), np.ones(n), adiabatic=True, ebal=True)
+            ch = []
+            _diff(_asm_state(tw), _asm_state(asm), 'assembly[%d]' % k, ch)
+            env.holds('assembly %d (%s) %s: same state as its stand-alone twin%s' % (k, bcs[k], phase, '' if not ch else ': differs in ' + ', '.join(ch[:3])),
+                      not ch, key='assembly_differs_from_standalone_twin')
+
+
 def body_mesh_req(env):
     """Reactor._setup_asm_axial_mesh_req: the step requirement and the wall model chosen for an assembly do not depend on the
     assemblies set up before it.  Universe X: [A, B]; universe Y: [B'] alone (B' = B).  The per-assembly criterion
@@ -330,6 +464,15 @@ def instances(tier):
     inst.append(dict(label='object-graph[reactor,3 assemblies of one type]', body=body_graph_reactor, params={}, check_vacuity=False))
     inst.append(dict(label='object-graph[reactor,3 assemblies with an unrodded region]', body=body_graph_reactor,
                      params={'unrodded': True}, check_vacuity=False))
+    for bcs in (('FLOWRATE=0.5', 'DELTA_TEMP=150.0', 'FLOWRATE=0.4', 'OUTLET_TEMP=800.0', 'FLOWRATE=0.3'),
+                ('OUTLET_TEMP=820.0', 'FLOWRATE=0.45', 'DELTA_TEMP=90.0', 'FLOWRATE=0.35', 'OUTLET_TEMP=760.0')):
+        for unrodded in (False, True):
+            inst.append(dict(label='stand-alone-twin[%s,unrodded region=%s]' % ('/'.join(b.split('=')[0] for b in bcs), unrodded), body=body_twin,
+                             params={'bcs': bcs, 'unrodded': unrodded}, check_vacuity=False))
+    for pin in (True, False):
+        for unrodded in (False, True):
+            inst.append(dict(label='advance-one[reactor,4 assemblies of 2 types,pin model=%s,unrodded region=%s]' % (pin, unrodded), body=body_advance,
+                             params={'pin': pin, 'unrodded': unrodded}, check_vacuity=False))
     return inst
 
 
